@@ -54,12 +54,11 @@ macro "tr_fin" : tactic => `(tactic| (
   tr_consts
   tr_casts
   tr_consts
-  try simp only [rdiv, rrem] at *
+  try tr_abstract
+  tr_casts
+  tr_consts
+  try simp only [Tr.asU64, Tr.asI64, Tr.absI64, Tr.absI32, Tr.uabs, Tr.cmpInt] at *
   tr_split
-  all_goals tr_casts
-  all_goals tr_consts
-  all_goals try simp only [asI32, asU32, Tr.asU64, Tr.asI64, Tr.absI64, Tr.absI32, Tr.uabs, Tr.cmpInt] at *
-  all_goals tr_split
   all_goals try simp only [Prod.mk.injEq, Except.ok.injEq, Except.error.injEq, Option.some.injEq, reduceCtorEq,
     decide_eq_decide, decide_eq_true_eq, true_and, and_true] at *
   all_goals tr_close))
@@ -87,8 +86,8 @@ macro "tr_deep" : tactic => `(tactic| (
     | tr_model
     | tr_consts1
     | tr_casts1
-    | simp only [rdiv, rrem] at *
-    | simp only [asI32, asU32, Tr.asU64, Tr.asI64, Tr.absI64, Tr.absI32, Tr.uabs, Tr.cmpInt] at *
+    | tr_abstract1
+    | simp only [Tr.asU64, Tr.asI64, Tr.absI64, Tr.absI32, Tr.uabs, Tr.cmpInt] at *
     | tr_eval)
   all_goals try simp only [Prod.mk.injEq, Except.ok.injEq, Except.error.injEq, Option.some.injEq, reduceCtorEq,
     decide_eq_decide, decide_eq_true_eq, true_and, and_true] at *
@@ -101,8 +100,11 @@ macro "tr_leaf" : tactic => `(tactic| first
 macro "tr_auto" : tactic => `(tactic| (
   try simp only [bind, Except.bind, pure, Except.pure]
   try simp (disch := omega) only [tr_eq, decide_eq_true_eq]
-  tr_split
-  all_goals tr_leaf))
+  -- inside `first` error recovery is off: the first leaf that cannot be closed ends the attempt (a wrong
+  -- translation fails fast instead of grinding through every remaining case)
+  first
+  | (tr_split; all_goals tr_leaf)
+  | fail "tr_auto: a case of the split could not be closed"))
 
 
 /-! ## common.rs -/
@@ -574,6 +576,14 @@ theorem extract_day_range (d : Int) (h0 : -2440588 ≤ d) : 0 ≤ (Date.extract 
     (hts0 : -9223372036854775808 ≤ ts) (hts1 : ts ≤ 9223372036854775807) :
     Tr.Date.eq_timestamp d ts = decide (Timestamp.new d 0 = ts) := by
   unfold Tr.Date.eq_timestamp
+  tr_auto
+
+/-! ## `Ord for IntervalYM` (derived in the crate: comparison of the month counts) -/
+
+@[tr_eq] theorem IntervalYM.cmp_eq (a b : Int) (ha0 : -2147483648 ≤ a) (ha1 : a ≤ 2147483647)
+    (hb0 : -2147483648 ≤ b) (hb1 : b ≤ 2147483647) :
+    Tr.IntervalYM.cmp a b = Tr.cmpInt a b := by
+  unfold Tr.IntervalYM.cmp
   tr_auto
 
 end SqlDt.TrEq
